@@ -15,6 +15,14 @@ func Bubble(t *testing.T, f func()) {
 	done := make(chan struct{})
 	go func() {
 		defer close(done)
+		defer func() {
+			// synctest.Test itself panics when the bubble's root returns while goroutines are still
+			// durably blocked ("deadlock"); hand that to the caller like any other panic.
+			if r := recover(); r != nil && !panicked {
+				pv = r
+				panicked = true
+			}
+		}()
 		synctest.Test(t, func(st *testing.T) {
 			defer func() {
 				if r := recover(); r != nil {
